@@ -369,6 +369,52 @@ def run_narrow_reductions(ctx, monitor):
                             ctx.fail(case, f"numpoly.{nm}{kw} on {dt} constants {a.tolist()}: {diff}", tags + ["value" if "values" in diff else "shape" if "shape" in diff else "type"])
 
 
+def run_model_constfns(ctx):
+    """numpy's semantics on integer / rational value arrays is part of the model (Np/Model/ConstFns.lean: argmax/argmin
+    with first occurrence, amax/amin, count_nonzero, nonzero, any/all, floor division and remainder, floor/ceil/rint,
+    isclose): on a grid the model's values must be numpy's. A disagreement is an error of the model (RuntimeError)."""
+    from fractions import Fraction
+    rng = ctx.rng("model-const")
+    reqs, wants = [], []
+    for sh in [(4,), (1,), (2, 3), (3, 1), (2, 1, 3), (2, 2, 2)]:
+        for _ in range(3):
+            a = rng.integers(-2, 3, size=sh)
+            xs = [int(x) for x in a.ravel()]
+            for ax in range(len(sh)):
+                for fn, f in (("argmax", numpy.argmax), ("argmin", numpy.argmin), ("amax", numpy.amax), ("amin", numpy.amin),
+                              ("count_nonzero", numpy.count_nonzero), ("any", numpy.any), ("all", numpy.all)):
+                    out = numpy.asarray(f(a, axis=ax))
+                    reqs.append({"op": "constfn", "fn": fn, "shape": list(sh), "xs": xs, "axis": ax})
+                    wants.append({"shape": list(out.shape), "values": [x.item() for x in out.ravel()]})
+            reqs.append({"op": "constfn", "fn": "argmax_flat", "xs": xs}); wants.append({"value": int(numpy.argmax(a))})
+            reqs.append({"op": "constfn", "fn": "argmin_flat", "xs": xs}); wants.append({"value": int(numpy.argmin(a))})
+            reqs.append({"op": "constfn", "fn": "nonzero", "shape": list(sh), "xs": xs})
+            wants.append({"values": [[int(v) for v in col] for col in numpy.nonzero(a)]})
+    a = rng.integers(-9, 10, size=60); b = rng.integers(-4, 5, size=60)
+    with numpy.errstate(all="ignore"):
+        q, r = numpy.divmod(a, b)
+    reqs.append({"op": "constfn", "fn": "divmod", "a": [int(x) for x in a], "b": [int(x) for x in b]})
+    wants.append({"q": [int(x) for x in q], "r": [int(x) for x in r]})
+    qs = [(int(n), int(d)) for n in range(-13, 14) for d in (1, 2, 4, 8)]
+    vals = numpy.array([n / d for n, d in qs])
+    reqs.append({"op": "constfn", "fn": "round", "qs": [list(x) for x in qs]})
+    wants.append({"floor": [int(x) for x in numpy.floor(vals)], "ceil": [int(x) for x in numpy.ceil(vals)], "rint": [int(x) for x in numpy.rint(vals)]})
+    for rtol, atol in [((1, 4), (0, 1)), ((0, 1), (1, 2)), ((1, 8), (1, 8)), ((1, 2), (0, 1))]:
+        pa = [(int(n), 8) for n in rng.integers(-24, 25, size=30)]; pb = [(int(n), 8) for n in rng.integers(-24, 25, size=30)]
+        fa = numpy.array([n / d for n, d in pa]); fb = numpy.array([n / d for n, d in pb])
+        reqs.append({"op": "constfn", "fn": "isclose", "a": [list(x) for x in pa], "b": [list(x) for x in pb], "rtol": list(rtol), "atol": list(atol)})
+        wants.append({"values": [bool(x) for x in numpy.isclose(fa, fb, rtol=rtol[0] / rtol[1], atol=atol[0] / atol[1])]})
+    bad = []
+    for k, (req, want, ans) in enumerate(zip(reqs, wants, run_driver([dict(r, id=i) for i, r in enumerate(reqs)]))):
+        ctx.count("model-constfn")
+        got = {key: ans.get(key) for key in want}
+        if got != want:
+            bad.append(f"{ {a: b for a, b in req.items() if a != 'op'} }: model {str(got)[:150]}, numpy {str(want)[:150]}")
+    if bad:
+        raise RuntimeError(f"Np.ConstFns and numpy disagree on {len(bad)} of {len(reqs)} cases:\n" + "\n".join(bad[:6]))
+    ctx.extra["model_constfn_cases"] = len(reqs)
+
+
 def run_division(ctx):
     q0, q1 = numpoly.variable(2)
     divisors = [q0, numpoly.polynomial([q0, 2]), q0 * q1 + 1]
@@ -397,6 +443,7 @@ def run(ctx):
     run_table(ctx, monitor)
     run_reduction_grid(ctx, monitor)
     run_narrow_reductions(ctx, monitor)
+    run_model_constfns(ctx)
     run_division(ctx)
     ctx.extra["argument_monitor"] = {"calls": monitor.calls, "mutations": monitor.events[:5]}
     ctx.sample({"function": "argmax", "array": [[3, 1, 3]], "axis": 1, "numpy": [0]})
